@@ -201,6 +201,8 @@ def discover_instrumented() -> dict:
             unknown.append(key)
             continue
         code_to_key[code] = key
+    if leftover:
+        force_restore(c0)  # the probe itself was not undone: reported by the caller; later cases start clean
     return {"code_to_key": code_to_key, "unknown": unknown, "probe_leftover": leftover, "baseline": c0}
 
 
@@ -296,7 +298,7 @@ def entry_key(e) -> str | None:
     return None
 
 
-def match_entries(entries, calls, t0, t1):
+def match_entries(entries, calls, t0, t1, unmapped=False):
     """Judge the entries of one journal activation against the calls with t0 < start, end <= t1.
 
     Reading of the statement: every completed call has exactly one entry of its kind on its object;
@@ -331,9 +333,14 @@ def match_entries(entries, calls, t0, t1):
             heapq.heappop(ends)
         return ends[0][0] if ends else float("inf")
 
-    matched = tolerated = 0
+    matched = tolerated = unexplained = 0
     for pos, e in enumerate(entries):
         key = entry_key(e)
+        if key is None and unmapped:
+            # the journal instruments an attribute the table has no row for: its entries cannot be
+            # matched, so an unnamed entry is not judged (the census and the differential still are)
+            unexplained += 1
+            continue
         if key is None:
             problems.append(("unexplained-entry", f"{e.operation}/{e.class_name}",
                              f"entry #{pos} {e.operation} on {e.class_name} names no instrumented operation"))
@@ -365,6 +372,7 @@ def match_entries(entries, calls, t0, t1):
         if not c[4]:
             problems.append(("missing-entry", c[0], f"a completed {c[0]} call (clock {c[2]}..{c[3]}) has no entry"))
     stats = {"completed": len(completed), "matched": matched, "tolerated": tolerated,
+             "report_only_entries_of_unmapped_operations": unexplained,
              "raised": sum(1 for c in calls if c[3] > t0 and c[4] is not None and c[4] <= t1 and not c[5])}
     return problems, stats
 
@@ -436,8 +444,9 @@ class Observed:
 class Runner:
     """Executes a marked history on a world.  ``journaled=False`` ignores the markers (plain run)."""
 
-    def __init__(self, world, items, journaled, calllog, snap, volatile=(), checkpoint_at=()):
+    def __init__(self, world, items, journaled, calllog, snap, volatile=(), checkpoint_at=(), unmapped=False):
         self.w, self.items, self.journaled = world, items, journaled
+        self.unmapped = unmapped
         self.log, self.snap = calllog, snap
         self.volatile = volatile
         self.checkpoint_at = set(checkpoint_at)
@@ -452,6 +461,10 @@ class Runner:
     # -- one history item
     def step(self, i):
         op = self.items[i]
+        if self.journaled and op[0] in ("io_del", "io_delslice", "io_delslice3"):
+            # `del lst[i]` / `del lst[a:b]` on graph inputs/outputs, by position relative to journals
+            self.obs.add("del_io_inside_a_journal" if self.active else
+                         ("del_io_outside_after_a_journal" if self.closed else "del_io_before_any_journal"))
         res = self.w.apply(op)
         self.last_exc = res.exc
         self.obs.results.append(norm_result(self.w, res))
@@ -473,13 +486,14 @@ class Runner:
                                  f"get_current_journal() after leaving ({how}, depth {depth}) is not the journal that was current before entering"))
         entries = list(j.entries)[start_len:]
         t1 = self.log.clock
-        problems, stats = match_entries(entries, self.log.calls, t0, t1)
+        problems, stats = match_entries(entries, self.log.calls, t0, t1, self.unmapped)
         if depth == 1:
             for c in self.log.calls:
                 if c[3] > t0 and c[4] is not None and c[4] <= t1:
                     obs.add("calls:" + c[0])
         for k, v in stats.items():
-            obs.add("calls_" + k, v)
+            if v or not k.startswith("report_only"):
+                obs.add(k if k.startswith("report_only") else "calls_" + k, v)
         obs.add("entries_seen", len(entries))
         if stats["completed"] >= 5:
             obs.add("journals_with_5+_completed_calls")
@@ -530,7 +544,21 @@ class Runner:
                     self.pending = None
                 else:
                     self.active.pop()
-                    self.on_exit(j, pre, prev_current, start_len, t0, "normal", depth + 1)
+                    if self.pending is not None:
+                        # an exception was thrown inside the block and did not come out of it
+                        self.obs.problems.append((
+                            "exit-suppressed-exception", f"depth {depth + 1}",
+                            f"{type(self.pending[0]).__name__} thrown inside a `with Journal()` block at depth {depth + 1} "
+                            "was swallowed by Journal.__exit__ (a truthy return value); without a journal it propagates"))
+                        self.on_exit(j, pre, prev_current, start_len, t0, "exception", depth + 1)
+                        exc = self.pending[0]
+                        self.pending[1] -= 1
+                        if self.pending[1] > 0:
+                            raise exc  # keep unwinding the outer journals as the plan says
+                        i = self.pending[2]
+                        self.pending = None
+                    else:
+                        self.on_exit(j, pre, prev_current, start_len, t0, "normal", depth + 1)
             elif it[0] == "J_exit" and self.journaled:
                 self.obs.results.append(("marker",))
                 if depth == 0:
